@@ -79,6 +79,7 @@ def run_items(modname, prop, tier, seed, items, timeout):
         scen = _scenario(modname)
         agg = {'n': 0, 'ticks': 0, 'stats': {}, 'cover': set(), 'viol': [], 'digests': [], 'samples': [],
                'harness': [], 'nviol': 0, 'first_index': items[0][0] if items else 0}
+        kept_sigs = {}
         for index, item in items:
             rng = random.Random(derive_seed(seed, prop, tier, index))
             try:
@@ -96,7 +97,12 @@ def run_items(modname, prop, tier, seed, items, timeout):
             agg['digests'].append(res.get('digest', ''))
             if res.get('violations'):
                 agg['nviol'] += 1
-                if len(agg['viol']) < 40:
+                # records are kept per SIGNATURE (the first three runs showing each): a signature that shows in nearly every run - a known finding -
+                # must not use up the room and hide a different violation later in the same slice
+                fresh = [v for v in res['violations'] if kept_sigs.get((v.get('oracle'), v.get('site'), v.get('cls')), 0) < 3]
+                if fresh:
+                    for v in fresh:
+                        kept_sigs[(v.get('oracle'), v.get('site'), v.get('cls'))] = kept_sigs.get((v.get('oracle'), v.get('site'), v.get('cls')), 0) + 1
                     agg['viol'].append({'index': index, 'case': case, 'violations': res['violations']})
             if len(agg['samples']) < 2 and (res.get('interesting') or index % 997 == 0):
                 agg['samples'].append(scen.sample(case, res))
